@@ -1,6 +1,246 @@
-//! Job kinds of this property (see lib/prop_*.py). Returns None for kinds it does not know.
-use serde_json::Value;
+//! C18 — the DOT export (see lib/prop_c18.py). Returns None for kinds it does not know.
+//!
+//! dot_export: {"modes":[..], "prefix":"P"} -> outcome of generate_compiled_automata_as_dot into a
+//!   fresh scratch directory, the files it created (relative name, text), the dump of the compiled
+//!   automata, the class label texts (escape_debug of the printed class AST) and the expected
+//!   graph titles.
+//! dot_fault: {"modes":[..], "prefix":"P", "fault":"missing|below_file|readonly|unwritable_fs|
+//!   empty_prefix|slash_in_mode_name|name_too_long"} -> outcome class under catch_unwind.
+use std::fs;
+use std::panic::{catch_unwind, AssertUnwindSafe};
+use std::path::{Path, PathBuf};
+use std::sync::atomic::{AtomicUsize, Ordering};
 
-pub fn run(_kind: &str, _job: &Value) -> Option<Value> {
-    None
+use scnr::Scanner;
+use serde_json::{json, Map, Value};
+
+static COUNTER: AtomicUsize = AtomicUsize::new(0);
+
+/// A fresh directory below the system's temporary directory (unique per call).
+fn scratch_dir() -> PathBuf {
+    let n = COUNTER.fetch_add(1, Ordering::SeqCst);
+    let nanos = std::time::SystemTime::now()
+        .duration_since(std::time::UNIX_EPOCH)
+        .map(|d| d.as_nanos())
+        .unwrap_or(0);
+    let d = std::env::temp_dir().join(format!("scnr_verif_c18_{}_{}_{}", std::process::id(), n, nanos));
+    let _ = fs::remove_dir_all(&d);
+    fs::create_dir_all(&d).expect("harness: cannot create the scratch directory");
+    d
+}
+
+/// Removes a scratch directory even if permission bits were changed inside it.
+fn remove_scratch(d: &Path) {
+    fn unlock(p: &Path) {
+        if let Ok(md) = fs::symlink_metadata(p) {
+            if md.is_dir() {
+                #[cfg(unix)]
+                {
+                    use std::os::unix::fs::PermissionsExt;
+                    let _ = fs::set_permissions(p, fs::Permissions::from_mode(0o755));
+                }
+                if let Ok(rd) = fs::read_dir(p) {
+                    for e in rd.flatten() {
+                        unlock(&e.path());
+                    }
+                }
+            }
+        }
+    }
+    unlock(d);
+    let _ = fs::remove_dir_all(d);
+}
+
+/// All regular files below `root` as (name relative to root, content), sorted by name.
+fn list_files(root: &Path) -> Vec<(String, Value)> {
+    fn walk(root: &Path, dir: &Path, out: &mut Vec<(String, Value)>) {
+        let Ok(rd) = fs::read_dir(dir) else { return };
+        for e in rd.flatten() {
+            let p = e.path();
+            let Ok(md) = fs::symlink_metadata(&p) else { continue };
+            if md.is_dir() {
+                walk(root, &p, out);
+            } else {
+                let rel = p.strip_prefix(root).unwrap_or(&p).to_string_lossy().to_string();
+                let text = match fs::read(&p) {
+                    Ok(b) => match String::from_utf8(b) {
+                        Ok(s) => json!(s),
+                        Err(_) => json!({"not_utf8": true}),
+                    },
+                    Err(e) => json!({"unreadable": e.to_string()}),
+                };
+                out.push((rel, text));
+            }
+        }
+    }
+    let mut out = Vec::new();
+    walk(root, root, &mut out);
+    out.sort_by(|a, b| a.0.cmp(&b.0));
+    out
+}
+
+/// Calls the export under catch_unwind: (outcome class, message).
+fn call_export(scanner: &Scanner, prefix: &str, dir: &Path) -> (&'static str, String) {
+    let r = catch_unwind(AssertUnwindSafe(|| scanner.generate_compiled_automata_as_dot(prefix, dir)));
+    match r {
+        Ok(Ok(())) => ("ok", String::new()),
+        Ok(Err(e)) => (crate::error_class(&e), e.to_string()),
+        Err(p) => ("panic", crate::panic_message(p)),
+    }
+}
+
+/// Builds the scanner of a job; on failure the result object is complete.
+fn build_job(job: &Value, res: &mut Map<String, Value>) -> Option<Scanner> {
+    let modes = match catch_unwind(|| crate::modes_from_json(&job["modes"])) {
+        Ok(m) => m,
+        Err(p) => {
+            res.insert("build".into(), json!("panic"));
+            res.insert("error".into(), json!(crate::panic_message(p)));
+            return None;
+        }
+    };
+    let (scanner, class, msg) = crate::build(&modes, false);
+    res.insert("build".into(), json!(class));
+    if !msg.is_empty() {
+        res.insert("error".into(), json!(msg));
+    }
+    scanner
+}
+
+fn job_dot_export(job: &Value) -> Value {
+    let mut res = Map::new();
+    let Some(scanner) = build_job(job, &mut res) else {
+        return Value::Object(res);
+    };
+    let prefix = job.get("prefix").and_then(|p| p.as_str()).unwrap_or("P");
+    let dump = scnr::verif::dump(&scanner);
+    let dir = scratch_dir();
+    let (class, msg) = call_export(&scanner, prefix, &dir);
+    res.insert("outcome".into(), json!(class));
+    if !msg.is_empty() {
+        res.insert("message".into(), json!(msg));
+    }
+    let files = list_files(&dir);
+    remove_scratch(&dir);
+    res.insert("removed".into(), json!(!dir.exists()));
+    res.insert("files".into(), Value::Array(files.into_iter().map(|(n, t)| json!([n, t])).collect()));
+    // what dot.rs prints for a class: escape_debug of the printed class AST
+    res.insert(
+        "cls_escaped".into(),
+        json!(dump.classes.iter().map(|c| c.escape_debug().to_string()).collect::<Vec<_>>()),
+    );
+    // what dot.rs prints as graph title: "<label>: <escape_default of the first pattern>..."
+    res.insert(
+        "titles".into(),
+        json!(dump
+            .modes
+            .iter()
+            .map(|m| match m.dfa.patterns.first() {
+                Some(p) => json!(format!("Compiled DFA {}: {}...", m.name, p.escape_default())),
+                None => Value::Null,
+            })
+            .collect::<Vec<_>>()),
+    );
+    res.insert("dump".into(), crate::dump_to_json(&dump));
+    Value::Object(res)
+}
+
+fn job_dot_fault(job: &Value) -> Value {
+    let mut res = Map::new();
+    let Some(scanner) = build_job(job, &mut res) else {
+        return Value::Object(res);
+    };
+    let prefix = job.get("prefix").and_then(|p| p.as_str()).unwrap_or("P");
+    let fault = job.get("fault").and_then(|p| p.as_str()).unwrap_or("missing");
+    let dir = scratch_dir();
+    let mut exercised = true;
+    let mut why = String::new();
+    // probe: can a file be created in `t` by this process? (root ignores permission bits)
+    let can_create = |t: &Path| -> bool {
+        let p = t.join("scnr_verif_probe");
+        match fs::File::create(&p) {
+            Ok(_) => {
+                let _ = fs::remove_file(&p);
+                true
+            }
+            Err(_) => false,
+        }
+    };
+    let target: PathBuf = match fault {
+        "missing" => dir.join("does").join("not").join("exist"),
+        "below_file" => {
+            let f = dir.join("regular_file");
+            fs::write(&f, b"x").expect("harness: write");
+            f.join("sub")
+        }
+        "is_file" => {
+            let f = dir.join("regular_file");
+            fs::write(&f, b"x").expect("harness: write");
+            f
+        }
+        "readonly" => {
+            let t = dir.join("ro");
+            fs::create_dir_all(&t).expect("harness: mkdir");
+            #[cfg(unix)]
+            {
+                use std::os::unix::fs::PermissionsExt;
+                fs::set_permissions(&t, fs::Permissions::from_mode(0o555)).expect("harness: chmod");
+            }
+            #[cfg(not(unix))]
+            {
+                let mut p = fs::metadata(&t).unwrap().permissions();
+                p.set_readonly(true);
+                fs::set_permissions(&t, p).expect("harness: chmod");
+            }
+            if can_create(&t) {
+                exercised = false;
+                why = "permission bits do not bite for this user (root)".into();
+            }
+            t
+        }
+        "unwritable_fs" => {
+            // a directory in which even root cannot create files
+            let t = PathBuf::from("/proc");
+            if !t.is_dir() {
+                exercised = false;
+                why = "/proc does not exist".into();
+            } else if can_create(&t) {
+                exercised = false;
+                why = "files can be created in /proc".into();
+            }
+            t
+        }
+        // the remaining faults are in the configuration (prefix / mode name), the folder is fine
+        _ => dir.clone(),
+    };
+    res.insert("fault".into(), json!(fault));
+    res.insert("exercised".into(), json!(exercised));
+    if !why.is_empty() {
+        res.insert("why".into(), json!(why));
+    }
+    if exercised {
+        let (class, msg) = call_export(&scanner, prefix, &target);
+        res.insert("outcome".into(), json!(class));
+        if !msg.is_empty() {
+            res.insert("message".into(), json!(msg));
+        }
+        let files: Vec<String> = list_files(&dir).into_iter().map(|(n, _)| n).collect();
+        res.insert("files".into(), json!(files));
+        // a file that escaped the folder through the prefix / mode name
+        if let Some(p) = job.get("escape_probe").and_then(|p| p.as_str()) {
+            let e = dir.join(p);
+            res.insert("escaped_exists".into(), json!(e.exists()));
+        }
+    }
+    remove_scratch(&dir);
+    res.insert("removed".into(), json!(!dir.exists()));
+    Value::Object(res)
+}
+
+pub fn run(kind: &str, job: &Value) -> Option<Value> {
+    match kind {
+        "dot_export" => Some(job_dot_export(job)),
+        "dot_fault" => Some(job_dot_fault(job)),
+        _ => None,
+    }
 }
